@@ -27,6 +27,30 @@ theorem apply_id (u : PointUpd K) (p : Point K) : (u.apply p).id = p.id := by
   unfold PointUpd.apply
   simp only [foldl_applySetter_id]
 
+theorem applyObs_id (u : PointUpd K) (p : Point K) : (u.applyObs p).id = p.id := by
+  unfold PointUpd.applyObs
+  simp only [foldl_applySetter_id]
+
+theorem foldl_applySetter_xy (l : List Setter) (p : Point K) : (l.foldl applySetter p).xy = p.xy ∧ (l.foldl applySetter p).z = p.z := by
+  induction l generalizing p with
+  | nil => exact ⟨rfl, rfl⟩
+  | cons s l ih =>
+    rw [List.foldl_cons]
+    obtain ⟨h1, h2⟩ := ih (applySetter p s)
+    rw [h1, h2]
+    cases s <;> exact ⟨rfl, rfl⟩
+
+/-- 6848bc2a: a point inside `<coordinates>` does not replace a coordinate group the point already has -/
+theorem applyObs_keeps (u : PointUpd K) (p : Point K) :
+    (p.xy.isSome = true → (u.applyObs p).xy = p.xy) ∧ (p.z.isSome = true → (u.applyObs p).z = p.z) := by
+  unfold PointUpd.applyObs
+  simp only [(foldl_applySetter_xy _ _).1, (foldl_applySetter_xy _ _).2]
+  constructor
+  · intro h
+    cases hu : u.xy <;> simp [h, coordsPointObserved, observedKeepsXY]
+  · intro h
+    cases hu : u.z <;> simp [h, coordsPointObserved, observedKeepsZ]
+
 theorem parsePointAttrs_id (C : Codec K) (pp : String) (as : List (PAttr × String)) (u : PointUpd K)
     (h : parsePointAttrs C pp as = .ok u) : u.id ≠ "" := by
   unfold parsePointAttrs at h
@@ -99,7 +123,52 @@ theorem parseCoordPts_ok (C : Codec K) (ps : List (Point K)) (pp : String) (pts 
         · rename_i ps2 pp2 cps2 hrest
           simp only [Except.ok.injEq, Prod.mk.injEq] at h
           rw [← h.1]
-          exact ih _ _ _ _ _ hrest (upsert_ok ps u.id u.apply (parsePointAttrs_id C pp as u hu) (apply_id u) hok)
+          exact ih _ _ _ _ _ hrest (upsert_ok ps u.id u.applyObs (parsePointAttrs_id C pp as u hu) (applyObs_id u) hok)
+
+/-- **a `<coordinates>` cluster never changes coordinates a point already has** (any accepted cluster, any PointData):
+    every point of PointData is still there, with its id, and with every coordinate group it had -/
+theorem parseCoordPts_keeps (C : Codec K) (ps : List (Point K)) (pp : String) (pts : List (List (PAttr × String)))
+    (ps' : List (Point K)) (pp' : String) (cps : List (CPoint K))
+    (h : parseCoordPts C ps pp pts = .ok (ps', pp', cps)) :
+    ∀ p ∈ ps, ∃ p' ∈ ps', p'.id = p.id ∧ (p.xy.isSome = true → p'.xy = p.xy) ∧ (p.z.isSome = true → p'.z = p.z) := by
+  induction pts generalizing ps pp ps' pp' cps with
+  | nil =>
+    simp only [parseCoordPts, Except.ok.injEq, Prod.mk.injEq] at h
+    intro p hp
+    exact ⟨p, by rw [← h.1]; exact hp, rfl, fun _ => rfl, fun _ => rfl⟩
+  | cons as rest ih =>
+    unfold parseCoordPts at h
+    split at h
+    · cases h
+    · rename_i u hu
+      split at h
+      · cases h
+      · split at h
+        · cases h
+        · rename_i ps2 pp2 cps2 hrest
+          simp only [Except.ok.injEq, Prod.mk.injEq] at h
+          rw [← h.1]
+          intro p hp
+          -- the image of `p` under the update of this point
+          have hq : ∃ q ∈ upsert ps u.id u.applyObs, q.id = p.id ∧ (p.xy.isSome = true → q.xy = p.xy) ∧
+              (p.z.isSome = true → q.z = p.z) := by
+            unfold upsert
+            split
+            · by_cases he : (p.id == u.id) = true
+              · refine ⟨u.applyObs p, List.mem_map.mpr ⟨p, hp, by simp [he]⟩, applyObs_id u p, (applyObs_keeps u p).1, (applyObs_keeps u p).2⟩
+              · refine ⟨p, List.mem_map.mpr ⟨p, hp, by simp [he]⟩, rfl, fun _ => rfl, fun _ => rfl⟩
+            · exact ⟨p, List.mem_append_left _ hp, rfl, fun _ => rfl, fun _ => rfl⟩
+          obtain ⟨q, hqm, hqid, hqxy, hqz⟩ := hq
+          obtain ⟨p', hp', hid', hxy', hz'⟩ := ih _ _ _ _ _ hrest q hqm
+          refine ⟨p', hp', hid'.trans hqid, ?_, ?_⟩
+          · intro hs
+            have := hqxy hs
+            rw [← this]
+            exact hxy' (by rw [this]; exact hs)
+          · intro hs
+            have := hqz hs
+            rw [← this]
+            exact hz' (by rw [this]; exact hs)
 
 theorem parseItem_ok (C : Codec K) (impl : Kind → K) (par : Params K) (s s' : PState K) (it : DItem)
     (h : parseItem C impl par s it = .ok s') (hok : PointsOk s.points) : PointsOk s'.points := by
